@@ -19,6 +19,8 @@ import SimplicityModel.Infer
 import SimplicityModel.Prog.RoundtripProps
 import SimplicityModel.Prog.JetsElementsProps
 import SimplicityModel.Prog.CommitEnc
+import SimplicityModel.Prog.EncSelf
+import SimplicityModel.Prog.InferRename
 
 namespace Props.C01
 open Wire Prog
@@ -90,6 +92,124 @@ theorem roundtrip_partial (ns : List (WNode JetsE.J)) (h0 : ns ≠ []) (hl : ns.
 /-- the Elements jet table the driver runs reads back the name it prints for a jet -/
 theorem elements_ofName_nameOf (j : JetsE.J) : JetsE.ofName (JetsE.nameOf j) = some j :=
   JetsE.ofName_nameOf j
+
+/-- **Round trip of an arbitrary plan along the encoder's node map, structural stage** (about the
+function the driver runs: `Prog.encode`, redeem mode; first stages of `Prog.decodeRedeem`).  Let `p`
+be *any* plan — nodes in any topological order, unused nodes, several nodes with one identity root —
+with annotations `an`, such that children are earlier nodes (`PlanBackward`, what the plan parser
+guarantees), fail/word payloads have wire sizes (`PayloadOk`) and the sharing identities are a
+congruence on the encoder's DAG (`EncCongr`: nodes with equal identity roots have children with
+pairwise equal identity roots — true of identity roots up to SHA-256 collisions, kept as a
+hypothesis since SHA-256 stays abstract).  Let `S` be the final state of the encoder's walk and
+`f t` the position at which the sharing class of node `t` of the encoder's DAG (plan node `i` is
+`2*i`, the hidden pseudo-node of assertion `j` is `2*j+1`) was written.  If the encoder succeeds,
+then the node list `N` it wrote
+
+* is non-empty and well formed (`NodesOk`: child references strictly backwards, payload sizes), so —
+  if it has fewer than 2^32 nodes — the node-list decoder reads exactly `N` back from the program
+  bytes and `close` accepts the padding;
+* passes the decoder's canonical-order check `canonicalOk` (the pointer-sharing post-order walk from
+  the last node yields node `j` at position `j`: no unused node, post-order, nothing unshared);
+* has the root of `p` as its last node, and for every node `t` whose class was written (the root;
+  and with `t` all its children — so every node reachable from the root): node `f t` of `N` is the
+  wire node written for an item with the identity of `t`, and its child references are `f` of the
+  children of `t`.
+
+This is `decode (encode p) ≅ p` along `f` as far as the *structure* goes.  What is still missing for
+the statement `decodeRedeem (encode p) = ok d` with `d.plan[f i]` of the kind of `p[i]`, the same
+arrow, roots, cost and witness value: (1) that `convert` accepts `N` (hidden nodes only below `case`,
+pairwise different — follows from the shape of `wireOf` and the uniqueness of classes, not yet
+assembled); (2) the types: `Inf.least_of_renaming` (below, `reinference_along_renaming`) reduces it
+to showing that the variable map induced by `f` sends the constraints of `p` onto those of the
+converted plan — needs all nodes of `p` reachable (an unused node can constrain a used one) and equal
+arrows at nodes with equal identity roots; (3) the annotations and the witness stream of the
+converted plan, node by node along `f`; (4) `decodeRedeem`'s identity-root uniqueness check (holds
+since classes are written once).  These remain checked at run time by the driver on every generated
+program (`model-roundtrip-differs` / `model-rejects-own-encoding` would be printed). -/
+theorem roundtrip_nodemap_partial {J : Type} (jc : JetCode J) (ofName : String → Option J) (p : Plan)
+    (an : Array Annot) (wit : Nat → Option (List Bool)) (hsz : an.size = p.size) (hpos : 0 < p.size)
+    (hb : PlanBackward p) (hpl : PayloadOk p) (hcong : EncCongr p an) (pb wb : List Bool)
+    (he : encode jc ofName p an true wit = some (pb, wb)) :
+    let S := (walk (encChildren p true) (encKey p an true) (2 * p.size + 2) (2 * (p.size - 1)) ⟨#[], [], 0⟩).1
+    let f := clsPos (encKey p an true) S
+    ∃ N : List (WNode J), S.outs.toList.mapM (wireOf ofName p) = some N ∧
+      pb = padToByte (encProgram jc N) ∧ N ≠ [] ∧ NodesOk 0 N ∧
+      canonicalOk N.toArray = true ∧
+      (N.length < 2 ^ 32 → ∃ rest, decProgram jc pb = .ok (N, rest) ∧ closeOk rest = true) ∧
+      f (2 * (p.size - 1)) = N.length - 1 ∧
+      (∃ i, Cls (encKey p an true) S (2 * (p.size - 1)) i) ∧
+      (∀ t, EncDom p t → (∃ i, Cls (encKey p an true) S t i) →
+        f t < N.length ∧ wireChildren N.toArray (f t) = (encChildren p true t).map f ∧
+        (∃ o n, S.outs.toList[f t]? = some o ∧ encKey p an true o.node = encKey p an true t ∧
+          N[f t]? = some n ∧ wireOf ofName p o = some n) ∧
+        ∀ c ∈ encChildren p true t, ∃ i, Cls (encKey p an true) S c i) :=
+  Prog.enc_structure jc ofName p an wit hsz hpos hb hpl hcong pb wb he
+
+/-- **Types along a node map**: re-inference on renumbered variables.  If a variable map `σ` sends
+the constraints `E` of the original program into and onto the constraints `E'` of the decoded one,
+and variables identified by `σ` had equal inferred types, then inference on `E'` returns the original
+types transported along `σ` — and cannot end in a clash or an occurs-check failure
+(`reinference_returns_original_types` is the case `σ = id`). -/
+theorem reinference_along_renaming {f f' : Nat} {E E' : List Inf.Eqn} {S S' : List Inf.Bind} (σ : Nat → Nat)
+    (himg : ∀ e ∈ E, (e.1.rename σ, e.2.rename σ) ∈ E')
+    (hsur : ∀ e' ∈ E', ∃ e ∈ E, e' = (e.1.rename σ, e.2.rename σ))
+    (h : Inf.unify f E [] = .ok S) (h' : Inf.unify f' E' [] = .ok S')
+    (hwd : ∀ x x', σ x = σ x' → Inf.closeUnit S x = Inf.closeUnit S x') :
+    ∀ x, Inf.closeUnit S' (σ x) = Inf.closeUnit S x :=
+  Inf.least_of_renaming σ himg hsur h h' hwd
+
+theorem reinference_along_renaming_accepts {f f' : Nat} {E E' : List Inf.Eqn} {S : List Inf.Bind} (σ : Nat → Nat)
+    (hsur : ∀ e' ∈ E', ∃ e ∈ E, e' = (e.1.rename σ, e.2.rename σ))
+    (h : Inf.unify f E [] = .ok S)
+    (hwd : ∀ x x', σ x = σ x' → Inf.closeUnit S x = Inf.closeUnit S x')
+    (hbad : Inf.unify f' E' [] = .clash ∨ Inf.unify f' E' [] = .occurs) : False :=
+  Inf.renaming_accepts σ hsur h hwd hbad
+
+/-- non-vacuity of `roundtrip_nodemap_partial`: a plan that is *not* in canonical form — the unit
+node twice (one identity root at two nodes, written once), out of post-order — satisfies its
+hypotheses for any annotations that give the two `unit` nodes one identity and the `comp` node
+another -/
+example (a c : Annot) (hne : a.ihr ≠ c.ihr) :
+    let p : Plan := #[Node.unit, Node.unit, Node.comp 1 0]
+    let an : Array Annot := #[a, a, c]
+    an.size = p.size ∧ 0 < p.size ∧ PlanBackward p ∧ PayloadOk p ∧ EncCongr p an := by
+  intro p an
+  have hdom : ∀ t, EncDom p t → t = 0 ∨ t = 2 ∨ t = 4 := by
+    intro t ht
+    rcases ht with ⟨h2, hlt⟩ | ⟨h2, x, h, hp | hp⟩
+    · have : t / 2 < 3 := hlt
+      omega
+    · have : t / 2 < 3 := by
+        rcases Nat.lt_or_ge (t / 2) 3 with h' | h'
+        · exact h'
+        · rw [Array.getElem?_eq_none (by simpa [p] using h')] at hp; cases hp
+      have : t / 2 = 0 ∨ t / 2 = 1 ∨ t / 2 = 2 := by omega
+      rcases this with e | e | e <;> rw [e] at hp <;> simp [p] at hp
+    · have : t / 2 < 3 := by
+        rcases Nat.lt_or_ge (t / 2) 3 with h' | h'
+        · exact h'
+        · rw [Array.getElem?_eq_none (by simpa [p] using h')] at hp; cases hp
+      have : t / 2 = 0 ∨ t / 2 = 1 ∨ t / 2 = 2 := by omega
+      rcases this with e | e | e <;> rw [e] at hp <;> simp [p] at hp
+  refine ⟨rfl, by decide, ?_, ?_, ?_⟩
+  · intro i nd hp cc hc
+    have hi : i < 3 := by
+      rcases Nat.lt_or_ge i 3 with h' | h'
+      · exact h'
+      · rw [Array.getElem?_eq_none (by simpa [p] using h')] at hp; cases hp
+    have : i = 0 ∨ i = 1 ∨ i = 2 := by omega
+    rcases this with rfl | rfl | rfl <;> simp [p] at hp <;> subst hp <;> simp [Node.children] at hc
+    omega
+  · intro i nd hp
+    have hi : i < 3 := by
+      rcases Nat.lt_or_ge i 3 with h' | h'
+      · exact h'
+      · rw [Array.getElem?_eq_none (by simpa [p] using h')] at hp; cases hp
+    have : i = 0 ∨ i = 1 ∨ i = 2 := by omega
+    rcases this with rfl | rfl | rfl <;> simp [p] at hp <;> subst hp <;> trivial
+  · intro t t' ht ht' hk
+    rcases hdom t ht with rfl | rfl | rfl <;> rcases hdom t' ht' with rfl | rfl | rfl <;>
+      simp [encKey, encChildren, p, an] at hk ⊢ <;> first | exact absurd hk hne | exact absurd hk.symm hne
 
 /-- **Round trip, assembled** (about the functions the driver runs: `Prog.encode`, redeem mode, and
 `Prog.decodeRedeem`).  Let `p` be a plan with arrows, annotations and witness bit strings that is in
@@ -300,6 +420,8 @@ example : ∃ an cm pb wb, encode JetsE.jc JetsE.ofName compWitnessUnit an false
   exact ⟨an, cm, _, _, h1, h2⟩
 
 #print axioms roundtrip_canonical
+#print axioms roundtrip_nodemap_partial
+#print axioms reinference_along_renaming
 #print axioms roundtrip_commit_canonical
 #print axioms decodedCommit_is_canonical
 #print axioms compWitnessUnit_commit_canonical
